@@ -248,3 +248,7 @@ def run(ctx):
         enders = sorted({m.path for m in A.builder_methods() for _, t in m.calls() if m.callee(t) in {f.path for f in cw_mc}})
         ctx.check(R5, len(enders) == 1, 'single-finisher', 'the checksum that ends the file is read in %d builder routines (%s): finish() and into_inner() can then end the same build with different bytes' % (
             len(enders), [e.rsplit('::', 1)[-1] for e in enders]), fn=lib.fns.get(enders[-1]) if enders else None)
+    # which of the two one-transition node forms is written depends on `last_addr`: only the constructor and the node compiler may set it
+    # (R01.3, tiling, shared with C01 / C09), or the bytes depend on the API path by which the keys arrived
+    import rules.C01 as C01
+    ctx.step(C01.r01_3, ctx, A)
